@@ -1,24 +1,76 @@
-/- Full statements for C03, type equality under binders. -/
+/- Full statements for C03, type equality under binders and of structural declarations. -/
 import ZV.Model.Lub
 
 namespace ZV.Props.C03.LubStatement
 open ZV.Lub
 
-/-- The level discipline of `lub_inner` decides exactly alpha-equivalence: for types that follow the
-naming discipline (each identity bound once, never also free) and whose binders are not the other
-side's free identities, the comparison succeeds iff the nameless forms are equal. -/
+/-- The level discipline of `lub_inner` and its by-name comparison of the arms of `data` /
+`codata` declarations decide exactly alpha-equivalence up to the declaration order of arms: for
+types whose declarations do not repeat a name (`WF`), that follow the naming discipline (each
+identity bound once, never also free) and whose binders are not the other side's free identities,
+the comparison succeeds iff the nameless forms (arms sorted by name) are equal. -/
 def lub_iff_alpha : Prop := ∀ a b : Ty,
+  WF a = true → WF b = true →
   Fresh a → Fresh b →
   (∀ x ∈ binders a, x ∉ freeIds [] b) → (∀ x ∈ binders b, x ∉ freeIds [] a) →
   (lubEq {} a b = true ↔ alphaEq a b = true)
 
-/-- Comparison is reflexive on every type that follows the naming discipline. -/
-def lub_refl : Prop := ∀ a : Ty, Fresh a → lubEq {} a a = true
+/-- Comparison is reflexive on every type that follows the naming discipline and repeats no name
+in a declaration. -/
+def lub_refl : Prop := ∀ a : Ty, WF a = true → Fresh a → lubEq {} a a = true
+
+/-- Without `WF` reflexivity is lost: a declaration that repeats a name with two different types
+is not equal to itself (the second arm is compared with the first one found by name). -/
+def lub_not_refl_on_repeated_name : Prop :=
+  lubEq {} (.data (.cons 0 .int (.cons 0 .str .nil))) (.data (.cons 0 .int (.cons 0 .str .nil))) = false ∧
+  lubEq {} (.codata (.cons 0 (.ret .int) (.cons 0 (.ret .str) .nil)))
+    (.codata (.cons 0 (.ret .int) (.cons 0 (.ret .str) .nil))) = false
 
 /-- Alpha-equivalence is an equivalence relation (so accepted annotations compose). -/
 def alpha_equiv : Prop :=
   (∀ a, alphaEq a a = true) ∧ (∀ a b, alphaEq a b = true → alphaEq b a = true) ∧
   (∀ a b c, alphaEq a b = true → alphaEq b c = true → alphaEq a c = true)
+
+/-- What the specification says about declarations, with no reference to an order of arms: below
+any binder stacks, two well-formed `data` declarations have equal nameless forms iff they have the
+same set of names and, name by name, argument types with equal nameless forms; the same for
+`codata` and result types. -/
+def alpha_decl_spec : Prop := ∀ (env₁ env₂ : List Nat) (as bs : Arms),
+  WFArms as = true → WFArms bs = true →
+  let same : Prop := (∀ n, n ∈ as.names ↔ n ∈ bs.names) ∧
+    (∀ n t u, as.get n = some t → bs.get n = some u → toDB env₁ t = toDB env₂ u)
+  (toDB env₁ (.data as) = toDB env₂ (.data bs) ↔ same) ∧
+  (toDB env₁ (.codata as) = toDB env₂ (.codata bs) ↔ same)
+
+/-- the same at top level in terms of `alphaEq` -/
+def alpha_decl_spec_top : Prop := ∀ (as bs : Arms),
+  WFArms as = true → WFArms bs = true →
+  let same : Prop := (∀ n, n ∈ as.names ↔ n ∈ bs.names) ∧
+    (∀ n t u, as.get n = some t → bs.get n = some u → alphaEq t u = true)
+  (alphaEq (.data as) (.data bs) = true ↔ same) ∧
+  (alphaEq (.codata as) (.codata bs) = true ↔ same)
+
+/-- Permuting the arms of any `data` / `codata` declaration anywhere inside a type yields an
+equivalent type: the checker accepts the pair in both directions. -/
+def arm_order_irrelevant : Prop := ∀ a b : Ty, WF a = true → ArmPerm a b →
+  lubEq {} a b = true ∧ lubEq {} b a = true
+
+/-- the pair for `positional_comparison_differs`: destructors `name` (0) and `age` (1);
+`codata | .name : Ret String | .age : Ret Int end` and
+`codata | .age : Ret String | .name : Ret Int end` -/
+def personL : Ty := .codata (.cons 0 (.ret .str) (.cons 1 (.ret .int) .nil))
+def personR : Ty := .codata (.cons 1 (.ret .str) (.cons 0 (.ret .int) .nil))
+
+/-- The comparison is by name, not by position: the two declarations have the same names and,
+position by position, equal result types, yet they are different types (the result types of
+`name` differ) and the comparison says so.  (`ZV.Lub.lubEqZip`, the positional variant, accepts
+this pair: `positional_variant_accepts` in `ZV/Props/C03.lean`.) -/
+def positional_comparison_differs : Prop :=
+  WF personL = true ∧ WF personR = true ∧
+  (∀ n, n ∈ [0, 1] ↔ n ∈ [1, 0]) ∧
+  lubEq {} (.ret .str) (.ret .str) = true ∧ lubEq {} (.ret .int) (.ret .int) = true ∧
+  lubEq {} personL personR = false ∧ lubEq {} personR personL = false ∧
+  alphaEq personL personR = false
 
 /-- Two bound variables of different binders are never identified: `forall X Y. X` and
 `forall X Y. Y` differ (the shape of the seeded level-counter mistake). -/
